@@ -15,7 +15,7 @@
    [names_distinct] (known finding D7: a token and a literal with the same text are one terminal) — and
    verdict, diagnostics (kind, symbol) and definition list equal those of spec.Parse / Spec.DFA. *)
 From Coq Require Import String List Bool NArith Permutation.
-From Verif Require Import Cfg.Ebnf Cfg.Translate Emerge.SpecModel Emerge.SpecWf Emerge.SpecTable Emerge.SpecRules Emerge.Pipeline.
+From Verif Require Import Cfg.Ebnf Cfg.Translate Emerge.SpecModel Emerge.SpecWf Emerge.SpecTable Emerge.SpecRules Emerge.SpecVerdict Emerge.Pipeline.
 From VerifGen Require Import RuneGo.
 Import ListNotations.
 
@@ -146,6 +146,30 @@ Proof.
 Qed.
 Print Assumptions missing_rule_is_reported.
 
+(* "two terminals with the same value": reported for v iff two different names each have v as their one definition *)
+Theorem same_value_is_reported_iff_two_terminals_share_it :
+  forall ds v, spec_names_distinct ds = true ->
+    ((exists ts, In (SameValue v ts) (spec_diags ds)) <->
+     exists a b r1 r2, a <> b /\ in_table predefs_s ds a /\ in_table predefs_s ds b /\
+                       defs_of predefs_s ds a = [(v, r1)] /\ defs_of predefs_s ds b = [(v, r2)]).
+Proof. intros ds v H. exact (same_value_reported_iff terminal_names predefs_s ds v H). Qed.
+Print Assumptions same_value_is_reported_iff_two_terminals_share_it.
+
+(* THE VERDICT: a specification is accepted iff it is well-formed as read off the declaration list - every terminal name
+   that occurs has exactly one definition, no unknown predefined name, no two terminals with the same value, a rule for
+   [start], a rule for every mentioned non-terminal - and no handle sits in two of the recorded precedence levels (that
+   conjunct is stated on the model's levels; their handle sets are compared with the directives per specification, C12).
+   Every declaration list in any order; premises: D7 (no literal shares its text with a token name) and D2 (no mentioned
+   non-terminal begins with "gen"). *)
+Theorem rejected_iff_ill_formed :
+  forall ds, spec_names_distinct ds = true -> forallb (fun A => negb (is_gen A)) (mentioned_nts ds) = true ->
+    (spec_diags ds = [] <-> well_formed predefs_s ds /\ levels_overlap (s_precs (translate_spec ds)) = false).
+Proof.
+  intros ds Hn Hu. apply (accepted_iff_well_formed terminal_names predefs_s ds Hn).
+  intros A HA. rewrite forallb_forall in Hu. specialize (Hu A HA). apply negb_true_iff in Hu. exact Hu.
+Qed.
+Print Assumptions rejected_iff_ill_formed.
+
 Fixpoint cp (s : string) : list N :=
   match s with EmptyString => [] | String a t => Ascii.N_of_ascii a :: cp t end.
 Local Open Scope string_scope.
@@ -168,6 +192,7 @@ Proof. vm_compute. repeat split; reflexivity. Qed.
 Example declared_definitions_example :
   match front (cp "grammar g; start = ""+"" AA BB CC; AA = ""a""; BB = /b+/; CC = $DIGIT;") with
   | FSpec _ ds => spec_names_distinct ds && match spec_diags ds with [] => true | _ => false end
+                  && forallb (fun A => negb (is_gen A)) (mentioned_nts ds)
                   && Nat.eqb (List.length (s_terms (translate_spec ds))) 4
                   && forallb (fun e => Nat.eqb (List.length (te_defs e)) 1) (s_terms (translate_spec ds))
   | _ => false
